@@ -22,7 +22,7 @@ def run(r):
     depth = 4 if r.tier == "thorough" else 3
     r.rule = (f"every instruction stream (main, each block; macro bodies are regions inside the main stream) of: all "
               f"fixture templates of /repo (tests/inputs, refs, every *.html/*.j2 that compiles), 4 multi-template sets, "
-              f"ALL chains of depth <= 3 (thorough: depth 4 over the 15 core kinds) over 29 construct kinds x 9 innermost leaves (text, empty body, break, "
+              f"ALL chains of depth <= 3 (thorough: depth 4 over the 18 core kinds) over 29 construct kinds x 9 innermost leaves (text, empty body, break, "
               f"continue, loop(x), loop(x)|filter, run-time failure, failure in the iteration x == k, failing include) that are admissible, "
               f"plus a seeded sample of deeper chains; error recovery: macros, call-block callers and blocks invoked from "
               f"Rust functions (Value::call / State::render_block) that swallow the failure, with bodies failing after "
@@ -43,7 +43,7 @@ def run(r):
         "FastRecurse with no loop frame of the region on the stack is an error (true unless a template includes itself from inside its own recursive loop)",
         "what happens to text captured before a break/continue leaves the capture is unspecified (the engine drops it); only text outside such captures must appear",
     ]
-    r.regen_tables(["C05_INSTRUCTIONS", "C05_VM_ARMS", "C05_CODEGEN_ARMS", "C05_HARNESS_OTHER", "C05_RESTORE_ORDER"])
+    r.regen_tables(["C05_INSTRUCTIONS", "C05_VM_ARMS", "C05_CODEGEN_ARMS", "C05_HARNESS_OTHER", "C05_RESTORE_ORDER", "C05_HOOK_NOT_BRANCHES"])
     r.lean_prove("MJ.Props.C05", "MJ/Audit/C05.lean", extra_targets=["drive_c05"])
     exe = r.cargo_build("c05")
     if exe is None:
